@@ -13,6 +13,8 @@ from __future__ import annotations
 
 import json
 import re
+import resource
+import signal
 import traceback
 
 from vmon import reach
@@ -73,6 +75,28 @@ ASSUMES = [
 
 TOPNAME = {"S": "Scrollable", "SB": "ScrollBar+Scrollable", "LB": "ScrollBar+ListBox"}
 MAX_EXC = 3
+CASE_TIMEOUT = 5.0  # seconds per history (a normal one takes milliseconds); firing => inconclusive, the shard goes on
+MEM_LIMIT = 4 << 30  # address-space cap per shard: a runaway allocation becomes a MemoryError inside the case
+
+
+class CaseTimeout(BaseException):
+    pass
+
+
+def _on_alarm(signum, frame):
+    raise CaseTimeout
+
+
+def run_guarded(case, counters=None):
+    """run one history under the per-case watchdog -> Session, or None when the watchdog fired"""
+    signal.signal(signal.SIGALRM, _on_alarm)
+    signal.setitimer(signal.ITIMER_REAL, CASE_TIMEOUT)
+    try:
+        return Session(case, counters).run()
+    except CaseTimeout:
+        return None
+    finally:
+        signal.setitimer(signal.ITIMER_REAL, 0)
 
 
 def canvas_rows(canv):
@@ -576,10 +600,10 @@ class Session:
 
 def sigs_of(case):
     try:
-        s = Session(case).run()
+        s = run_guarded(case)
     except Exception:  # noqa: BLE001
         return set()
-    return {sig for sig, _ in s.viols}
+    return {sig for sig, _ in s.viols} if s is not None else set()
 
 
 def shrink(case, sig, limit=250):
@@ -624,10 +648,14 @@ def shrink(case, sig, limit=250):
 
 def run_case(ctx, case, state, do_shrink=True):
     cnt = {}
-    s = Session(case, cnt)
-    s.run()
+    s = run_guarded(case, cnt)
     for k, v in cnt.items():
         ctx.count(k, v)
+    if s is None:
+        ctx.count("case_watchdog_fired")
+        ctx.inconc(f"case-watchdog: a history did not finish within {CASE_TIMEOUT:.0f} s")
+        ctx.sample({"timed_out": case})
+        return None
     ctx.count("kind:" + case["wrap"]["kind"])
     ctx.count("content:" + case["content"][0])
     ctx.case(json.dumps(case, sort_keys=True), nontrivial=s.judged > 0)
@@ -724,6 +752,12 @@ def run(ctx):
         LB.ListBox.get_visible_amount,
     )
     state = {}
+    try:
+        soft, hard = resource.getrlimit(resource.RLIMIT_AS)
+        if hard == resource.RLIM_INFINITY or hard >= MEM_LIMIT:
+            resource.setrlimit(resource.RLIMIT_AS, (MEM_LIMIT, hard))
+    except (ValueError, OSError):
+        pass
     try:
         for i, case in enumerate(core_cases(ctx.quick)):
             if ctx.mine(i):
